@@ -68,6 +68,37 @@ impl EnumDefinition {
     }
 }
 
+/// The range of enum values accepted for a built-in integer type, or `None` for any other type.
+fn integer_type_range(ty: &Type) -> Option<(i128, i128)> {
+    let Type::Raw(path) = ty else {
+        return None;
+    };
+    if path.len() != 1 {
+        return None;
+    }
+    let (signed, bits) = match path.last()?.as_str() {
+        "u8" => (false, 8),
+        "u16" => (false, 16),
+        "u32" => (false, 32),
+        "u64" => (false, 64),
+        "u128" => (false, 128),
+        "i8" => (true, 8),
+        "i16" => (true, 16),
+        "i32" => (true, 32),
+        "i64" => (true, 64),
+        "i128" => (true, 128),
+        _ => return None,
+    };
+    // Negative values are tolerated for unsigned base types (they denote the two's complement
+    // bit pattern, which existing descriptions rely on), as long as they fit in the width.
+    Some(match (signed, bits) {
+        // enum values are `isize`s, so the 128-bit types can hold all of them
+        (_, 128) => (i128::MIN, i128::MAX),
+        (true, bits) => (-(1i128 << (bits - 1)), (1i128 << (bits - 1)) - 1),
+        (false, bits) => (-(1i128 << (bits - 1)), (1i128 << bits) - 1),
+    })
+}
+
 pub fn build(
     semantic: &SemanticState,
     resolvee_path: &ItemPath,
@@ -84,9 +115,13 @@ pub fn build(
         return Ok(None);
     };
 
-    // TODO: verify that `ty` actually makes sense for an enum
     let Some(size) = ty.size(&semantic.type_registry) else {
         return Ok(None);
+    };
+
+    // The base type ends up in `#[repr(..)]`, which only accepts the built-in integer types.
+    let Some((min_value, max_value)) = integer_type_range(&ty) else {
+        anyhow::bail!("the base type of enum `{resolvee_path}` is not a built-in integer type");
     };
 
     let mut fields: Vec<(String, isize)> = vec![];
@@ -105,6 +140,12 @@ pub fn build(
             ),
             None => last_field,
         };
+        // `value as _` in the generated code would silently truncate anything else.
+        if (value as i128) < min_value || (value as i128) > max_value {
+            anyhow::bail!(
+                "value {value} for case `{name}` of enum `{resolvee_path}` does not fit in the enum's base type"
+            );
+        }
         fields.push((name.0.clone(), value));
 
         for attribute in attributes {
